@@ -8,11 +8,16 @@ use std::sync::{Arc, Mutex};
 pub struct HookFs {
     pub inner: Arc<dyn FileSystem>,
     pub before_first_removal: Mutex<Option<Box<dyn FnOnce() + Send>>>,
+    /// called once, right before a file whose path contains the pattern is created
+    pub before_create: Mutex<Option<(String, Box<dyn FnOnce() + Send>)>>,
 }
 
 impl HookFs {
     pub fn new(inner: Arc<dyn FileSystem>) -> Self {
-        HookFs { inner, before_first_removal: Mutex::new(None) }
+        HookFs { inner, before_first_removal: Mutex::new(None), before_create: Mutex::new(None) }
+    }
+    pub fn on_create(&self, path_contains: &str, f: Box<dyn FnOnce() + Send>) {
+        *self.before_create.lock().unwrap() = Some((path_contains.to_string(), f));
     }
     pub fn set_hook(&self, f: Box<dyn FnOnce() + Send>) {
         *self.before_first_removal.lock().unwrap() = Some(f);
@@ -39,6 +44,13 @@ impl FileSystem for HookFs {
         self.inner.rename(from, to)
     }
     fn create_file(&self, path: &Path, append: bool) -> Result<Box<dyn RandomAccessFile>> {
+        let hook = {
+            let mut g = self.before_create.lock().unwrap();
+            if g.as_ref().map_or(false, |(p, _)| path.to_string_lossy().contains(p.as_str())) { g.take() } else { None }
+        };
+        if let Some((_, h)) = hook {
+            h();
+        }
         self.inner.create_file(path, append)
     }
     fn remove_file(&self, path: &Path) -> Result<()> {
